@@ -81,12 +81,15 @@ func (ep *episode) baseFile(spec string) ([]byte, error) {
 			b = img
 		}
 		out = b
-	case "ascii":
+	case "ascii", "asciie":
 		n := num(1)
 		seed, _ := strconv.ParseUint(parts[2], 10, 64)
 		tris := genTriangles(n, "wild-small", seed)
 		var buf bytes.Buffer
 		g := func(v float64) string { return strconv.FormatFloat(v, 'g', -1, 64) }
+		if parts[0] == "asciie" { // exporter style: short mantissas, explicit exponents
+			g = func(v float64) string { return strconv.FormatFloat(v, 'e', 5+int(seed%4), 64) }
+		}
 		buf.WriteString("solid verif\n")
 		for _, t := range tris {
 			nn := t.Normal()
